@@ -49,6 +49,8 @@ def gen_cases(rng, tier):
         big = M.kind_of(model) != "nuc"
         for _ in range(per):
             cases.append({"kind": "problems", "model": model, "seed": rng.randrange(2**32), "n": 2 if big else 5})
+        for _ in range(1 if tier == "quick" else 6):
+            cases.append({"kind": "library", "model": model, "seed": rng.randrange(2**32), "n": 2 if big else 6})
     return cases
 
 
@@ -207,8 +209,87 @@ def lnL_of(prob):
     return float(lf.lnL)
 
 
+def lf_from_library_tree(prob, t):
+    """likelihood function on a cogent3 tree object, every branch length set explicitly from the tree's own nodes
+    (so a zero length is honoured instead of being replaced by default_length)"""
+    from cogent3 import make_aligned_seqs
+
+    model = prob["model"]
+    kw = {"gc": prob["gc"]} if prob.get("gc", 1) != 1 else {}
+    sm = M.make_model(model, **kw)
+    lf = sm.make_likelihood_function(t)
+    lf.set_alignment(make_aligned_seqs(prob["aln"], moltype=M.moltype_of(model)))
+    if prob.get("mprobs") is not None:
+        lf.set_motif_probs(prob["mprobs"])
+    for p_, v in prob["params"].items():
+        lf.set_param_rule(p_, init=v)
+    for node in t.get_edge_vector(include_root=False):
+        if node.length is not None:
+            lf.set_param_rule("length", edge=node.name, init=float(node.length))
+    return lf
+
+
+def relate_library_tree_ops(res, rng, model):
+    """the library's own tree transformations (re-rooting, unrooting, midpoint rooting, sorting, copying) applied
+    to the tree of a likelihood problem must not change lnL (reversible models; child order/copy for all)"""
+    from cogent3 import make_tree
+
+    big = M.kind_of(model) in ("codon", "protein")
+    prob = M.gen_problem(rng, model, ntips=rng.randint(4, 5 if big else 7), ncols=rng.randint(3, 6 if big else 20), ambig=rng.choice([0.0, 0.15]), scoped=False, bins=1, zero_frac=0.0, polytomy=0.2)
+    prob["mprobs"] = prob["mprobs"] if "positions" not in (prob["mprobs"] or {}) else None
+    dyadic = rng.random() < 0.6  # exact ties for midpoint rooting
+    for e in M.edges(prob["tree"]):
+        e["length"] = rng.choice([0.0625, 0.125, 0.25, 0.5, 1.0]) if dyadic else round(rng.uniform(0.01, 1.5), 4)
+    rooted2 = len(prob["tree"]["children"]) == 2
+    if rooted2 and rng.random() < 0.4:
+        rng.choice(prob["tree"]["children"])["length"] = 0.0  # outgroup convention: a zero-length root child
+    nw = M.newick(prob["tree"])
+    rc = {"kind": "library", "model": model, "prob": prob}
+    try:
+        t0 = make_tree(nw)
+        base = float(lf_from_library_tree(prob, t0).lnL)
+    except Exception as e:  # noqa: BLE001
+        res.evals += 1
+        res.witness(exc_mechanism("C11/library-tree/base-evaluation", e), tree=nw, replay_case=rc)
+        return
+    nstates = {"nuc": 4, "protein": 20, "codon": 61, "dinuc": 16}[M.kind_of(model)]
+    rtol = 1e-9 if nstates <= 16 else 1e-8
+    names = M.tips(prob["tree"])
+    internal = [e["name"] for e in M.edges(prob["tree"]) if e["children"]]
+    ops = [("copy", lambda t: t.copy()), ("deepcopy", lambda t: t.deepcopy()), ("sorted", lambda t: t.sorted())]
+    if model in M.REVERSIBLE:
+        ops += [("unrooted", lambda t: t.unrooted()), ("unrooted_deepcopy", lambda t: t.unrooted_deepcopy()), ("root_at_midpoint", lambda t: t.root_at_midpoint())]
+        ops += [(f"rooted_with_tip", lambda t, n=n: t.rooted_with_tip(n)) for n in rng.sample(names, min(2, len(names)))]
+        ops += [(f"rooted_at", lambda t, n=n: t.rooted_at(n)) for n in rng.sample(internal, min(2, len(internal)))]
+        ops += [("midpoint-of-unrooted", lambda t: t.unrooted().root_at_midpoint())]
+    for opname, f in ops:
+        try:
+            t2 = f(make_tree(nw))
+            got = float(lf_from_library_tree(prob, t2).lnL)
+        except Exception as e:  # noqa: BLE001
+            res.evals += 1
+            res.witness(exc_mechanism(f"C11/library-tree/{opname}", e), model=model, tree=nw, replay_case=rc)
+            continue
+        res.evals += 1
+        res.count("relation:library-" + opname)
+        if not (abs(got - base) <= rtol * max(1.0, abs(base)) or (np.isinf(got) and np.isinf(base))):
+            res.witness(f"C11/library-tree/{opname}/lnL-changes", model=model, got=got, exp=base, tree=nw, transformed=t2.get_newick(with_distances=True), zero_length_root_child=any(c["length"] == 0 for c in prob["tree"]["children"]), replay_case=rc)
+        if len(names) >= 4:
+            res.sig(model, "library-" + opname, M.shape_class(prob["tree"]), "dyadic" if dyadic else "real")
+    res.count("library-problems")
+
+
 def run_case(case):
     res = Result()
+    if case["kind"] == "library":
+        if "prob" in case:
+            # replay: re-run the relations on the recorded problem's model with a fixed generator
+            relate_library_tree_ops(res, random.Random(case.get("seed", 0)), case["model"])
+        else:
+            rng = random.Random(case["seed"])
+            for _ in range(case["n"]):
+                relate_library_tree_ops(res, rng, case["model"])
+        return res
     if case["kind"] == "one":
         relate(res, case["prob"], random.Random(case.get("seed", 0)), only=case.get("relation"))
         return res
@@ -337,5 +418,5 @@ def relate(res, prob, rng, only=None):
 
 
 def required(counters, tier):
-    need = ["relation:column-permutation", "relation:row-order", "relation:child-order", "relation:repeat-columns-x2", "relation:repeat-columns-x3", "relation:concatenation-additivity", "relation:reroot-at-internal-node", "relation:reroot-on-edge", "relation:edge-split"]
+    need = ["relation:column-permutation", "relation:row-order", "relation:child-order", "relation:repeat-columns-x2", "relation:repeat-columns-x3", "relation:concatenation-additivity", "relation:reroot-at-internal-node", "relation:reroot-on-edge", "relation:edge-split", "relation:library-unrooted", "relation:library-root_at_midpoint", "relation:library-rooted_at", "relation:library-rooted_with_tip", "relation:library-sorted"]
     return [n for n in need if not counters.get(n)]
